@@ -57,7 +57,7 @@ class MpsNet(nn.Module):
         return self.fc(self.act(self.c0(x)).flatten(1))
 
 
-def _build(H, method, fresh=0, a_prec=(8,)):
+def _build(H, method, fresh=0, a_prec=(8,), disable=False):
     if method == 'pit':
         return PIT(PitNet(), input_example=torch.zeros(1, 2, 2)), (1, 2, 2)
     if method == 'supernet':
@@ -70,13 +70,13 @@ def _build(H, method, fresh=0, a_prec=(8,)):
             vals.append(((k * 37 + fresh) % 17 - 8) / 8.0)
             k += 1
         H.set_(p, H.const_tensor(vals).reshape(H.shape(p)))
-    return MPS(net, input_example=torch.zeros(1, 1, 1, 1), qinfo=get_default_qinfo((2, 8), tuple(a_prec))), (1, 1, 1, 1)
+    return MPS(net, input_example=torch.zeros(1, 1, 1, 1), qinfo=get_default_qinfo((2, 8), tuple(a_prec)), disable_sampling=disable), (1, 1, 1, 1)
 
 
 SEARCH_STATE = ('running_mean', 'running_var', 'theta_alpha', 'theta_beta', 'theta_gamma')
 
 
-def _arbitrary_state(H, model, method):
+def _arbitrary_state(H, model, method, disable=False):
     """what a search changes of the state_dict is arbitrary: every parameter (weights, mask / selection coefficients, clip values), BatchNorm
     statistics, sampled coefficients; buffers that hold constants of the method (mask-construction matrices, keep-alive vectors, frozen
     masks, precisions) keep the value the constructor gave them.  Type invariant: variances are non-negative."""
@@ -93,6 +93,21 @@ def _arbitrary_state(H, model, method):
         H.set_(t, v)
         if method == 'mps':
             sel.append(H.elements(v))
+    if disable:
+        # sampling is off: the stored sampled coefficients are used as they are (type invariant of what a sampler leaves: a probability vector per decision)
+        for key, t in model.named_buffers():
+            if key.endswith('theta_alpha'):
+                cols = H.elements(t)
+                n_alt = H.shape(t)[0]
+                width = len(cols) // n_alt
+                for e in cols:
+                    H.assume(H.ge(e, 0))
+                for c in range(width):
+                    col = [cols[r * width + c] for r in range(n_alt)]
+                    H.assume(H.eq(H.sum(col), 1))
+                    for i in range(n_alt):          # one path per largest stored coefficient (ties included)
+                        if H.branch(H.and_(*([H.gt(col[i], w) for w in col[:i]] + [H.ge(col[i], w) for w in col[i + 1:]]))):
+                            break
     # MPS: one path per combination of selected precisions (ties included)
     for vals in sel:
         for i in range(len(vals)):
@@ -108,16 +123,20 @@ def _same(H, a, b):
     return H.eq(a, b)
 
 
-def h_roundtrip(H, method, anneal, a_prec=(8,), training=False):
+def h_roundtrip(H, method, anneal, a_prec=(8,), training=False, disable=False):
     a, shape = _build(H, method, 0, a_prec)
-    _arbitrary_state(H, a, method)
+    _arbitrary_state(H, a, method, disable)
     if anneal:
         T = H.real('temperature') if method != 'mps' else 0.5      # (MPS: a concrete value - a symbolic scale inside arg-max is beyond the local entailment query)
         if method != 'mps':
             H.assume(H.and_(T >= 0.05, T <= 20))
         a.update_softmax_options(temperature=T)
+    if disable:
+        # the search ran with sampling on (the sampled coefficients are whatever it left), then sampling was switched off for fine-tuning; the run is resumed
+        # in a wrapper constructed with disable_sampling=True
+        a.update_softmax_options(disable_sampling=True)
     sd = a.state_dict()
-    b, _ = _build(H, method, 5, a_prec)
+    b, _ = _build(H, method, 5, a_prec, disable)
     raised = False
     try:
         res = b.load_state_dict(sd)
@@ -167,8 +186,10 @@ HARNESSES = [
                     'plinio/methods/supernet/supernet.py::SuperNet.update_softmax_options', 'plinio/methods/mps/mps.py::MPS.update_softmax_options',
                     'plinio/methods/pit/pit.py::PIT.export', 'plinio/methods/supernet/supernet.py::SuperNet.export', 'plinio/methods/mps/mps.py::MPS.export'],
          quick=[dict(method='pit', anneal=False), dict(method='supernet', anneal=True), dict(method='supernet', anneal=False), dict(method='mps', anneal=True),
-                dict(method='pit', anneal=False, training=True), dict(method='supernet', anneal=False, training=True)],
+                dict(method='pit', anneal=False, training=True), dict(method='supernet', anneal=False, training=True),
+                dict(method='mps', anneal=True, training=True), dict(method='mps', anneal=False, disable=True), dict(method='mps', anneal=False, disable=True, training=True)],
          thorough=[dict(method='pit', anneal=False), dict(method='supernet', anneal=True), dict(method='supernet', anneal=False), dict(method='mps', anneal=True, a_prec=[4, 8]),
                    dict(method='mps', anneal=False), dict(method='pit', anneal=False, training=True), dict(method='supernet', anneal=False, training=True),
-                   dict(method='supernet', anneal=True, training=True)], timeout=120),
+                   dict(method='supernet', anneal=True, training=True), dict(method='mps', anneal=True, training=True), dict(method='mps', anneal=True, a_prec=[4, 8], training=True),
+                   dict(method='mps', anneal=False, disable=True), dict(method='mps', anneal=False, disable=True, training=True), dict(method='mps', anneal=True, a_prec=[4, 8], disable=True)], timeout=120),
 ]
